@@ -18,7 +18,9 @@ from __future__ import annotations
 import re
 
 from vlib import tmodel, tstrat
-from vlib.harness import Check, Mismatch
+from hypothesis import strategies as st
+
+from vlib.harness import Check, Mismatch, Part
 from checks.c01 import Statements, model_outcome, elems
 
 GUARD = {"ca", "c", "rp", "sw"}
@@ -123,6 +125,198 @@ class Tales(Statements):
                                "model_log": mlog})
 
 
+# -- once per reach; Python scopes ---------------------------------------------
+
+# (expression text, kind of the object it builds)
+FRESH_LITS = [
+    ("[]", "list"), ("[0, 0]", "list"), ("{}", "dict"), ("{'a': 1}", "dict"),
+    ("{0}", "set"), ("[[]]", "nested"), ("([], 1)", "nested"),
+    ("nothing.missing | []", "list"), ("undefined_name | {}", "dict"),
+    ("list()", "list"), ("[i0]", "list"), ("python: []", "list"),
+    ("dict(a=1)", "dict"), ("set()", "set"), ("[] | [1]", "list"),
+]
+# kind -> (expression that changes the object and shows it, text shown for a
+# fresh object built from the texts above: a function of the fresh length)
+FRESH_MUT = {
+    "list": "acc.append(1) or len(acc)",
+    "dict": "acc.update({len(acc) + 7: 1}) or len(acc)",
+    "set": "acc.add(len(acc) + 7) or len(acc)",
+    "nested": "acc[0].append(1) or len(acc[0])",
+}
+FRESH_LEN = {"[]": 0, "[0, 0]": 2, "{}": 0, "{'a': 1}": 1, "{0}": 1,
+             "[[]]": 0, "([], 1)": 0, "nothing.missing | []": 0,
+             "undefined_name | {}": 0, "list()": 0, "[i0]": 1,
+             "python: []": 0, "dict(a=1)": 1, "set()": 0, "[] | [1]": 0}
+
+COMP_NAMES = ["x", "q0", "len", "id", "y"]
+
+
+@st.composite
+def reach_cases(draw):
+    if draw(st.booleans()):
+        lit, kind = draw(st.sampled_from(FRESH_LITS))
+        return {"what": "fresh", "lit": lit, "kind": kind,
+                "form": draw(st.sampled_from(
+                    ["same_element", "child_text", "global", "macro",
+                     "attr"])),
+                "loops": draw(st.integers(1, 3)),
+                "renders": draw(st.integers(1, 3))}
+    # comprehensions: the first iterable belongs to the enclosing scope
+    v = draw(st.sampled_from(COMP_NAMES))
+    w = draw(st.sampled_from([n for n in COMP_NAMES if n != v]))
+    elt = draw(st.sampled_from(
+        ["{v}", "{v} * 2", "({v}, {w}[0])", "str({v})"]))
+    cond = draw(st.sampled_from(["", "", " if {v}", " if {v} in {w}"]))
+    shape = draw(st.sampled_from(
+        ["[{e} for {v} in {v}{c}]", "sorted({{{e} for {v} in {v}{c}}})",
+         "sorted({{{v}: {e} for {v} in {v}{c}}}.items())",
+         "list({e} for {v} in {v}{c})",
+         "[{e} for {v} in {v}{c} for z in (1, 2)]",
+         "[{e} for {w} in {w} for {v} in {v2}{c}]",
+         "(lambda {v}: [{e} for {v} in {v}{c}])({v})",
+         "[{e} for {v} in {v}{c}] + [{e} for {v} in {v}]",
+         "[{e} for {v} in {v}{c}] and {v}"]))
+    text = shape.format(e=elt.format(v=v, w=w), v=v, w=w,
+                        c=cond.format(v=v, w=w), v2="wv")
+    vals = draw(st.lists(st.integers(0, 3), min_size=0, max_size=3))
+    wvals = draw(st.lists(st.integers(0, 3), min_size=1, max_size=3))
+    return {"what": "comp", "expr": text, "v": v, "w": w, "vals": vals,
+            "wvals": wvals,
+            "site": draw(st.sampled_from(["content", "interp", "define",
+                                          "attr", "condition"]))}
+
+
+class Reach(Part):
+    """Every reach of an expression evaluates it anew (a literal list / dict
+    / set is a fresh object each time); inside Python expressions names obey
+    Python's scopes with the template variables as the global scope."""
+    name = "reach"
+    examples = {"quick": 600, "thorough": 12000}
+    floors = {"fresh": 0.3, "comp": 0.3}
+
+    def strategy(self, tier):
+        return reach_cases()
+
+    def labels(self, case):
+        yield case["what"]
+        if case["what"] == "fresh":
+            yield "form_" + case["form"]
+
+    def nontrivial(self, case):
+        if case["what"] == "fresh":
+            return case["loops"] * case["renders"] > 1 or \
+                case["form"] == "macro"
+        return True
+
+    def fresh_source(self, case):
+        lit, mut = case["lit"], FRESH_MUT[case["kind"]]
+        form = case["form"]
+        loop = "range(%d)" % case["loops"]
+        if form == "same_element":
+            body = '<b tal:define="acc %s" tal:content="%s"/>' % (lit, mut)
+        elif form == "child_text":
+            body = '<b tal:define="acc %s"><u>${%s}</u></b>' % (lit, mut)
+        elif form == "global":
+            body = '<b tal:define="global acc %s"/><b>${%s}</b>' % (lit, mut)
+        elif form == "attr":
+            body = '<b tal:define="acc %s" tal:attributes="n %s"/>' % (
+                lit, mut)
+        else:
+            return ('<div tal:define="i0 9"><i metal:define-macro="m" '
+                    'tal:omit-tag="">'
+                    '<b tal:define="acc %s" tal:content="%s"/></i>' % (
+                        lit, mut)
+                    + '<i tal:repeat="i0 %s"><u metal:use-macro='
+                      '"template.macros[\'m\']"/></i></div>' % loop)
+        return '<div><i tal:repeat="i0 %s">%s</i></div>' % (loop, body)
+
+    def fresh_expected(self, case):
+        n = FRESH_LEN[case["lit"]] + 1
+        form = case["form"]
+        if form in ("same_element", "macro"):
+            one = "<b>%d</b>" % n
+        elif form == "child_text":
+            one = "<b><u>%d</u></b>" % n
+        elif form == "global":
+            one = "<b/><b>%d</b>" % n
+        else:
+            one = '<b n="%d"/>' % n
+        if form == "macro":
+            # in place once, then once per loop pass
+            return "<div>" + one + "\n".join(
+                "<i>%s</i>" % one for _ in range(case["loops"])) + "</div>"
+        return "<div>" + "\n".join(
+            "<i>%s</i>" % one for _ in range(case["loops"])) + "</div>"
+
+    def comp_source(self, case):
+        e = case["expr"]
+        site = case["site"]
+        if site == "content":
+            return '<p tal:content="%s"/>' % e
+        if site == "interp":
+            return "<p>${%s}</p>" % e
+        if site == "define":
+            return '<p tal:define="r %s">${r}</p>' % e
+        if site == "attr":
+            return '<p tal:attributes="n str(%s)"/>' % e
+        return '<p tal:condition="%s">yes</p>' % e
+
+    def comp_env(self, case):
+        env = {case["v"]: list(case["vals"]), case["w"]: list(case["wvals"]),
+               "wv": [list(case["vals"])] * 2}
+        return env
+
+    def comp_expected(self, case):
+        import html
+        env = self.comp_env(case)
+        try:
+            val = eval(case["expr"], dict(env))   # noqa: S307 - own pool
+        except Exception as e:  # noqa: BLE001
+            return ("exc", type(e).__name__)
+        site = case["site"]
+        if site == "condition":
+            return ("out", "<p>yes</p>" if val else "")
+        text = html.escape(str(val), quote=False)
+        if site == "attr":
+            return ("out", '<p n="%s"/>' % html.escape(
+                str(val)).replace("&#x27;", "'"))
+        return ("out", "<p>%s</p>" % text)
+
+    def oracle(self, case):
+        from chameleon import PageTemplate
+        from vlib.cham import run
+        if case["what"] == "fresh":
+            src = self.fresh_source(case)
+            o = run(PageTemplate, src)
+            if not o.ok:
+                return Mismatch("reach:does not compile", {
+                    "source": src, "error": repr(o.exc)})
+            exp = self.fresh_expected(case)
+            for k in range(case["renders"]):
+                r = run(o.value.render)
+                got = r.value if r.ok else repr(r.exc)
+                if got != exp:
+                    return Mismatch(
+                        "reach:literal not built anew (%s)" % (
+                            "first render" if k == 0 else "later render"),
+                        {"source": src, "render": k, "got": got,
+                         "expected": exp})
+            return None
+        src = self.comp_source(case)
+        exp = self.comp_expected(case)
+        o = run(PageTemplate, src)
+        if not o.ok:
+            return Mismatch("reach:comprehension does not compile", {
+                "source": src, "error": repr(o.exc)})
+        r = run(o.value.render, **self.comp_env(case))
+        got = ("out", r.value) if r.ok else ("exc", type(r.exc).__name__)
+        if got != exp:
+            return Mismatch("reach:python scopes (%s vs %s)" % (
+                got[0], exp[0]), {"source": src, "env": self.comp_env(case),
+                                  "got": got, "expected": exp})
+        return None
+
+
 CHECK = Check(
     "C04", "exploration",
     rule=("C01 templates (depth <= 2 quick / 3 thorough) whose expressions "
@@ -131,8 +325,15 @@ CHECK = Check(
           "naturally), with python:/string:/not:/exists:/structure: prefixes "
           "and nestings, at every statement and interpolation site; "
           "non-trivial = contains a failing alternative or a prefix; "
-          "distinct by sha1 of the case"),
-    parts=[Tales()],
+          "distinct by sha1 of the case; part reach: 15 expressions that "
+          "build a list / dict / set (literals, pipes, calls) bound at 5 "
+          "kinds of sites, changed and shown, reached 1..3 times per "
+          "rendering (loop, macro) over 1..3 renderings; comprehensions / "
+          "generator expressions whose loop variable is named like the "
+          "template variable (or builtin) they run over, 9 shapes x 4 "
+          "element forms x conditions at 5 sites, reference = Python eval "
+          "with the template variables as globals"),
+    parts=[Tales(), Reach()],
     assumptions=[
         "the call log is compared modulo the order of statements inside the "
         "guard group and inside the late group of one element activation",
